@@ -32,23 +32,28 @@ def handout_scripts(tier):
         ops = [{"op": "set_rules_dir", "dir": "$RULES"},
                {"op": "set_pref", "name": "TTS", "value": tts}, {"op": "set_pref", "name": "Bookmark", "value": "true"},
                {"op": "set_pref", "name": "BrailleCode", "value": ["Nemeth", "UEB", "CMU"][i % 3]},
-               {"op": "set_pref", "name": "NavMode", "value": ["Enhanced", "Simple", "Character"][i % 3]},
-               {"op": "set_mathml", "mathml": e}, {"op": "speech"}, {"op": "overview"}]
-        for p in range(0, 14, 2):
+               {"op": "set_pref", "name": "NavMode", "value": ["Enhanced", "Simple", "Character"][i % 3]}]
+        # the expression is set TWICE in the session (the same string again, or the same elements under other author ids): what is
+        # handed out after the second set_mathml has to be an id of ITS result - the text, the braille and the positions are the same,
+        # the ids are not
+        rounds = [e, e if i % 2 == 0 else canon.add_ids(re.sub(r"\sid=(['\"]).*?\1", "", e), ["all", "alternate", "none"][i % 3], rng)]
+        for e2 in rounds:
+          ops += [{"op": "set_mathml", "mathml": e2}, {"op": "speech"}, {"op": "overview"}]
+          for p in range(0, 14, 2):
             ops.append({"op": "node_from_braille", "pos": p})
-        for k in range(14):
-            x = rng.random()
-            if x < 0.25:
-                ops.append({"op": "set_nav_node", "id": "${ID:%d}" % rng.randrange(40), "offset": rng.choice([0, 1, 1, 2])})
-            elif x < 0.45:
-                ops.append({"op": "nav_cmd", "cmd": f"MoveTo{rng.randrange(10)}"})
-            elif x < 0.55:
-                ops.append({"op": "nav_key", "key": 48 + rng.randrange(10), "shift": False, "ctrl": False, "alt": False, "meta": False})
-            elif x < 0.65:
-                ops.append({"op": "nav_cmd", "cmd": f"SetPlacemarker{rng.randrange(10)}"})
-            else:
-                ops.append({"op": "nav_cmd", "cmd": rng.choice(moves + ["MoveLastLocation"])})
-            ops.append({"op": "nav_id"})
+          for k in range(14 if e2 is rounds[0] else 6):
+              x = rng.random()
+              if x < 0.25:
+                  ops.append({"op": "set_nav_node", "id": "${ID:%d}" % rng.randrange(40), "offset": rng.choice([0, 1, 1, 2])})
+              elif x < 0.45:
+                  ops.append({"op": "nav_cmd", "cmd": f"MoveTo{rng.randrange(10)}"})
+              elif x < 0.55:
+                  ops.append({"op": "nav_key", "key": 48 + rng.randrange(10), "shift": False, "ctrl": False, "alt": False, "meta": False})
+              elif x < 0.65:
+                  ops.append({"op": "nav_cmd", "cmd": f"SetPlacemarker{rng.randrange(10)}"})
+              else:
+                  ops.append({"op": "nav_cmd", "cmd": rng.choice(moves + ["MoveLastLocation"])})
+              ops.append({"op": "nav_id"})
         scripts.append({"id": f"handout{i}", "ops": ops})
     return scripts
 
